@@ -19,6 +19,7 @@ ImportClauses(L) ==
      \cup (IF ok /\ ~Sound(ToT(L.struct)) THEN {"returned_unsound"} ELSE {})
      \cup (IF ok /\ Accepts(d) /\ ~SameStruct(ToT(L.struct), Import(d)) THEN {"structure"} ELSE {})
      \cup (IF ok /\ Accepts(d) /\ BagOf(L.prios) # BagOf(ImportPrios(d)) THEN {"priorities"} ELSE {})
+     \cup (IF L.canary THEN {} ELSE {"later_import_disturbed"})
 
 (* rich structures: every field of every state and transition, strings interned as integers *)
 RoundTripClauses(L) ==
@@ -27,6 +28,7 @@ RoundTripClauses(L) ==
   \cup (IF L.outcome = "ok" /\ BagOf(L.orig.states) # BagOf(L.back.states) THEN {"states"} ELSE {})
   \cup (IF L.outcome = "ok" /\ BagOf(L.orig.trans) # BagOf(L.back.trans) THEN {"transitions"} ELSE {})
   \cup (IF L.outcome = "ok" /\ \E i \in DOMAIN L.eqs : ~L.eqs[i] THEN {"equality"} ELSE {})
+  \cup (IF L.canary THEN {} ELSE {"later_import_disturbed"})
 
 Div(L) == IF L.kind = "import" /\ ((L.outcome = "ok") # Accepts(L.doc)) THEN 1 ELSE 0
 
